@@ -246,7 +246,14 @@ def scripted_transport(script, payloads):
     return transport
 
 
-def gz(data):
+def gz(data, members=1):
+    """gzip stream of `data`; members > 1 splits it at line boundaries into a multi-member stream (valid gzip:
+    every reader has to concatenate the members)"""
+    if members > 1:
+        lines = data.splitlines(keepends=True)
+        if len(lines) >= members:
+            step = -(-len(lines) // members)
+            return b"".join(gz(b"".join(lines[i:i + step])) for i in range(0, len(lines), step))
     buf = io.BytesIO()
     with gzip_mod.GzipFile(fileobj=buf, mode="wb", mtime=0) as f:
         f.write(data)
